@@ -218,6 +218,12 @@ func ruleBlockReadOnlySize(c *Ctx, r *Report, prefix string) {
 			if g.call != nil || (g.op != token.GTR && g.op != token.LSS) {
 				continue
 			}
+			if _, isK := g.x.(*ssa.Const); isK {
+				continue
+			}
+			if _, isK := g.y.(*ssa.Const); isK {
+				continue // `declared >= 0` style tests are not size comparisons
+			}
 			if bv, known := sp.P.BoolOf(g.iff.Cond); known {
 				cond := bv != condNegated(g.iff)
 				_ = cond
